@@ -4,6 +4,9 @@ import json, os
 V = os.path.dirname(os.path.dirname(os.path.abspath(__file__)))
 TECH = "TLA+ model checked with TLC; TLC-generated behaviours replayed on the real library; recorded traces validated by TLC"
 C = {
+ "C03": ("exploration", "every in-session datagram recorded from the real library (honest sessions for all 9 suites with message lengths 0..40, long histories, exhaustive retry sequences) is parsed and judged by TLC against Wire.tla/Crypto.tla; quantifier is over inputs and histories, so this is exploration with trace validation", "6 C03"),
+ "C12": ("model_checking", "selection function checked by TLC over every preference list (len 0..3 over 5 suites) x every advertised subset; the same cases and every algorithm triple in the Open Session Response replayed; the proposal on the wire is parsed by TLC", "6 C12"),
+ "C16": ("model_checking", "CipherSelect.tla (chunked retrieval, record grammar) exhaustively for small record universes incl. malformed tails; generated record lists (0..20 records, exact multiples of 16) served by a rule-driven BMC and results compared by TLC with the specification", "6 C16"),
  "C01": ("model_checking", "Handshake.tla (C01_KeyAgreement, C01_HonestSupportedSucceeds) exhaustively; honest handshakes for every supported suite x every username/password length x privilege x lookup x KG against the RAKP term algebra of Crypto.tla, keys compared and every later command verified/decrypted with the BMC-side keys; traces validated by TLC", "6 C01"),
  "C02": ("model_checking", "Handshake.tla with the mutation alphabet (C02_OnlyIfAuthentic, C02_IncorrectPassword); every single-bit flip of the authenticated fields, every status, every other tag, every truncation of each reply replayed on the real library (also with exact-capacity receive slices); traces validated by TLC", "6 C02"),
  "C04": ("model_checking", "Console.tla: invariant C04_Authentic over every interleaving of forged/authentic replies (exhaustive, bounded); the same behaviours are replayed on the real V2Session and every recorded return is judged by TLC against the datagram it was based on", "6 C04"),
